@@ -153,6 +153,19 @@ CLAIMS["C10"] = (
     "exactly its language, captured values, and the build/match round trip are not decided.",
 )
 
+CLAIMS["C12"] = (
+    "4/C12",
+    "collector query + guarded-site per append site with operand-identity slices, sticky-flag discipline, callee summary of the budget call, type-level fact",
+    "Every site that appends stream chunks to an accumulator in the buffering extractors (web bytes/string/JSON/form, "
+    "body::to_bytes_limited, multipart Field::bytes and form readers) is found by query and must be reachable only "
+    "across the passing edge of `acc.len() + chunk.len() > limit` measuring that very accumulator and chunk (with the "
+    "overflow edge returning the error or setting a never-reset flag that guards the append and selects the error), or "
+    "across the Ok edge of Limits::try_consume_limits(chunk.len(), _), whose body only ever subtracts with checked_sub "
+    "and errors on None. Delegations hand the limit through unchanged; the extractors read the decompressed stream. A "
+    "path fact holds for every chunking and for declared/undeclared lengths alike. Single-chunk decompression bombs are "
+    "the statement's 'limit plus one chunk' allowance.",
+)
+
 NOT_YET = "check not built yet in this round (planned per DESIGN.md section 4); not claimed until it exists"
 
 NOT_APPLICABLE = {}
